@@ -4,6 +4,7 @@
 //! case only): `script <op> <op> ...`, answers joined with ` | `.  Ops:
 //!
 //! * `new`                      fresh `JxlImage::builder().build_uninit()` (also implied at start)
+//! * `newwide`                  the same with `force_wide_buffers(true)` (32-bit Modular buffers)
 //! * `feed:<hex>`               exactly one API call on the bytes given:
 //!                              uninitialised: `UninitializedJxlImage::feed_bytes` then `try_init`;
 //!                              initialised: `JxlImage::feed_bytes`.  Answer:
@@ -38,10 +39,15 @@ struct Sess {
 }
 
 fn fresh() -> Sess {
+    fresh_with(false)
+}
+
+fn fresh_with(wide: bool) -> Sess {
     let tracker = jxl_oxide::AllocTracker::with_limit(1 << 30);
     let u = JxlImage::builder()
         .pool(JxlThreadPool::none())
         .alloc_tracker(tracker.clone())
+        .force_wide_buffers(wide)
         .build_uninit();
     Sess { st: St::Uninit(Box::new(u)), pending: Vec::new(), tracker }
 }
@@ -494,6 +500,10 @@ fn op(s: &mut Sess, o: &str) -> String {
     match (name, arg) {
         ("new", None) => {
             *s = fresh();
+            "ok".into()
+        }
+        ("newwide", None) => {
+            *s = fresh_with(true);
             "ok".into()
         }
         ("feed", Some(h)) => match unhex(h) {
